@@ -128,19 +128,22 @@ impl Filter for SortFilter {
             return Err(invalid_input("Array of objects expected"));
         }
 
-        let mut sorted: Vec<Value> = input.iter().map(|v| v.to_value()).collect();
-        if let Some(property) = &args.property {
+        // Values of unrelated types do not compare, so this is not a total order
+        let sorted: Vec<Value> = input.iter().map(|v| v.to_value()).collect();
+        let sorted = if let Some(property) = &args.property {
             // Using unwrap is ok since all of the elements are objects
-            sorted.sort_by(|a, b| {
+            crate::stable_sort_by(sorted, &mut |a, b| {
                 nil_safe_compare(
                     safe_property_getter(a, property),
                     safe_property_getter(b, property),
                 )
                 .unwrap_or(cmp::Ordering::Equal)
-            });
+            })
         } else {
-            sorted.sort_by(|a, b| nil_safe_compare(a, b).unwrap_or(cmp::Ordering::Equal));
-        }
+            crate::stable_sort_by(sorted, &mut |a, b| {
+                nil_safe_compare(a, b).unwrap_or(cmp::Ordering::Equal)
+            })
+        };
         Ok(Value::array(sorted))
     }
 }
